@@ -1,5 +1,6 @@
 import Proofs.StringLit
 import Proofs.GenValue
+import Proofs.Traversal
 /-!
 # C11 — generated source reads back as the value it was generated from (string literals, labels, keys)
 
@@ -95,3 +96,19 @@ example : readBack ⟨fun c => decide (32 ≤ c.toNat ∧ c.toNat < 127), fun k 
   readBack_exact _ (by decide) _ (by decide)
 
 end HclModel.GenValue
+
+/-! ## traversals: `TokensForTraversal` -/
+namespace HclModel.Trav
+
+/-- Every absolute traversal with attribute steps and index steps by non-negative numbers and arbitrary strings
+    is written as tokens that both the stand-alone traversal parser and the expression parser read back as
+    exactly that traversal (`HclModel/Syntax/Traversal.lean`; attribute names are identifiers: the generator
+    writes them as they are). -/
+theorem traversal_readback (isPrint : Char → Bool) (hb : isPrint '{' = true) (t : T) :
+    standalone (gen isPrint t) = some t ∧ viaExpression (gen isPrint t) = some t :=
+  ⟨Proofs.standalone_gen isPrint hb t, Proofs.viaExpression_of_standalone _ t (Proofs.standalone_gen isPrint hb t)⟩
+
+example : (gen (fun _ => true) ⟨['a'], [.attr ['b'], .index (.str ['$', '{'])]⟩) =
+    [.ident ['a'], .dot, .ident ['b'], .obrack, .str ['$', '$', '{'], .cbrack] := by decide
+
+end HclModel.Trav
